@@ -24,6 +24,8 @@ NAMES = {CLEAN: "clean", SET: "set", U: "unordered-sequence"}
 ORDER_INSENSITIVE_CALLS = {"len", "any", "all", "sum", "min", "max", "bool", "isinstance", "hasattr", "print", "id", "repr",
                            "os.path.commonprefix", "commonprefix", "set", "frozenset", "sorted", "collections.Counter", "Counter"}
 SET_CTORS = {"set", "frozenset"}
+# key functions known to be injective on the collections they sort (text of the key expression -> reason)
+INJECTIVE_PY_KEYS: Dict[str, str] = {}
 SEQ_CTORS = {"tuple", "list", "iter", "enumerate", "reversed", "dict", "OrderedDict", "collections.OrderedDict", "next",
              "chain", "itertools.chain", "itertools.chain.from_iterable", "chain.from_iterable", "zip", "map", "filter"}
 SET_METHODS = {"union", "intersection", "difference", "symmetric_difference", "copy"}
@@ -362,6 +364,16 @@ class TaintAnalysis:
     def call(self, e: ast.Call, env, ft) -> int:
         f = e.func
         fname = ast.unparse(f) if isinstance(f, (ast.Name, ast.Attribute)) else ""
+        if fname == "sorted" and any(k.arg == "key" for k in e.keywords):
+            # sorting with a key only sanitises a set-derived order if the key cannot tie
+            n0 = len(ft.leaks)
+            at = max([self.expr(a, env, ft) for a in e.args], default=CLEAN)
+            del ft.leaks[n0:]
+            key = [k.value for k in e.keywords if k.arg == "key"][0]
+            if at >= SET and ast.unparse(key) not in INJECTIVE_PY_KEYS:
+                ft.leaks.append((e, f"sorted(<set>, key={ast.unparse(key)[:40]}): elements with equal keys keep the set's order"))
+                return U
+            return CLEAN
         if fname in ORDER_INSENSITIVE_CALLS:
             # the consumer does not observe order: evaluate arguments without recording leaks
             n0 = len(ft.leaks)
